@@ -1,0 +1,48 @@
+//go:build verif && unix
+
+// Verification hook for property C31 (terminal input decoding). Add-only:
+// exposes the unexported decoder with an injectable byte reader, the timeout
+// variables, the error kinds and the literal key tables, so that the external
+// checker in /verif can compare them with its model. Not compiled without
+// the "verif" build tag.
+
+package term
+
+import (
+	"time"
+
+	"src.elv.sh/pkg/ui"
+)
+
+// VerifByteReader is the byte source readEvent reads from.
+type VerifByteReader interface {
+	ReadByteWithTimeout(timeout time.Duration) (byte, error)
+}
+
+// VerifReadEvent is readEvent.
+func VerifReadEvent(rd VerifByteReader) (Event, error) { return readEvent(rd) }
+
+// VerifReadRune is readRune.
+func VerifReadRune(rd VerifByteReader, timeout time.Duration) (rune, error) {
+	return readRune(rd, timeout)
+}
+
+// VerifErrTimeout is the error a byte reader returns when a timed read
+// expires.
+func VerifErrTimeout() error { return errTimeout }
+
+// VerifSeqErrorMsg returns the message of a seqError.
+func VerifSeqErrorMsg(err error) (string, bool) {
+	if e, ok := err.(seqError); ok {
+		return e.msg, true
+	}
+	return "", false
+}
+
+// VerifTimeouts returns keySeqTimeout and utf8SeqTimeout.
+func VerifTimeouts() (keySeq, utf8Seq time.Duration) { return keySeqTimeout, utf8SeqTimeout }
+
+// VerifKeyTables returns the literal key tables.
+func VerifKeyTables() (g3, csiByLast map[rune]ui.Key, csiTilde, csiTilde27 map[int]rune) {
+	return g3Seq, csiSeqByLast, csiSeqTilde, csiSeqTilde27
+}
